@@ -280,6 +280,66 @@ def check_array_dunders(repo: Repo, rep: Report, w: World) -> None:
             except Undecided as ex:
                 rep.undecide("TYP", f"{q} {label}: {ex}")
     # scalar then/cond rejections
+    # ---- then / cond with the array in every operand position: the function forms cond(c, t, f) / then(x, y) of constraints.py and the
+    # scalar-receiver methods s.cond(t, f) / s.then(y) dispatch on *which* operand is an array; whatever position it has, the result has
+    # its shape and element i denotes the operator on the i-th elements (scalars and literals repeated)
+    for dims in (1, 2):
+        shape = (2,) if dims == 1 else (1, 2)
+        Cb, Ti, Fi, Yb = w.array("b", "c", shape), w.array("i", "t", shape), w.array("i", "f", shape), w.array("b", "y", shape)
+        sc, st, sf, sy = w.leaf("b", "sc"), w.leaf("i", "st"), w.leaf("i", "sf"), w.leaf("b", "sy")
+        forms: List[Tuple[str, Any, List[Tuple[str, Any]], str, Any]] = []
+        for mask in itertools.product([False, True], repeat=3):
+            if not any(mask):
+                continue
+            ops_ = [("c", Cb if mask[0] else sc), ("t", Ti if mask[1] else (st if mask[0] or mask[2] else 7)), ("f", Fi if mask[2] else sf)]
+            forms.append((f"cond({', '.join(('array' if m else 'scalar') for m in mask)})", lambda o=ops_: w.cw.call("cond", *[x for _n, x in o]), ops_, "i",
+                          lambda c, t, f: (t if c else f)))
+            if not mask[0]:
+                forms.append((f"BoolExpr.cond({', '.join(('array' if m else 'scalar') for m in mask[1:])})",
+                              lambda o=ops_: w.cw.method(o[0][1], "cond")(o[1][1], o[2][1]), ops_, "i", lambda c, t, f: (t if c else f)))
+        for mask2 in itertools.product([False, True], repeat=2):
+            if not any(mask2):
+                continue
+            ops2 = [("c", Cb if mask2[0] else sc), ("y", Yb if mask2[1] else sy)]
+            forms.append((f"then({', '.join(('array' if m else 'scalar') for m in mask2)})", lambda o=ops2: w.cw.call("then", *[x for _n, x in o]), ops2, "b",
+                          lambda c, y: ((not c) or y)))
+            if not mask2[0]:
+                forms.append(("BoolExpr.then(array)", lambda o=ops2: w.cw.method(o[0][1], "then")(o[1][1]), ops2, "b", lambda c, y: ((not c) or y)))
+        for label, thunk, operands_, rk, meaning_ in forms:
+            q = label.split("(")[0]
+            file = CONS if "." not in q else EXPR
+            try:
+                kindr, res = _try(w, thunk)
+                want_cls = {("b", 1): "BoolArray1D", ("b", 2): "BoolArray2D", ("i", 1): "IntArray1D", ("i", 2): "IntArray2D"}[(rk, dims)]
+                if kindr != "value" or not isinstance(res, Obj) or res.attrs.get("__class__") != want_cls or tuple(res.attrs.get("shape", ())) != tuple(shape):
+                    rep.finding("OPC-6A", file, q, f"{label} {dims}-D", f"{label} on {dims}-D operands: expected {want_cls} of shape {shape}, got {kindr}: "
+                                f"{_brief(res) if kindr == 'value' else res}")
+                    continue
+                names_: Dict[str, str] = {}
+                for nm_, x in operands_:
+                    if isinstance(x, Obj) and "data" in x.attrs:
+                        names_.update({f"{nm_}{i}": ("b" if nm_ in ("c", "y") else "i") for i in range(2)})
+                    elif isinstance(x, Obj):
+                        names_[x.attrs["leaf"]] = x.attrs["kind"]
+                bad = None
+                for val in valuations(names_, False):
+                    for i in range(2):
+                        vals_ = [(val[f"{nm_}{i}"] if (isinstance(x, Obj) and "data" in x.attrs) else (val[x.attrs["leaf"]] if isinstance(x, Obj) else x))
+                                 for nm_, x in operands_]
+                        got, want = w.denote(res.attrs["data"][i], val), meaning_(*vals_)
+                        if not same(got, want):
+                            bad = (i, val, got, want)
+                            break
+                    if bad:
+                        break
+                if bad:
+                    rep.finding("OPC-6A", file, q, f"{label} {dims}-D", f"{label}: element {bad[0]} denotes {bad[2]!r} under {bad[1]!r}; pointwise meaning is {bad[3]!r}")
+                else:
+                    rep.ok("OPC-6A", f"{label} ({dims}-D): shape and pointwise denotation agree")
+            except EM.IllFormed as ex:
+                rep.finding("OPC-6A", file, q, f"{label} {dims}-D", f"builds an ill-formed element tree: {ex}")
+            except Undecided as ex:
+                rep.undecide("OPC-6A", f"{label} {dims}-D: {ex}")
     s_b, s_i = w.leaf("b", "s"), w.leaf("i", "n")
     rej = [
         ("then", CONS, "int expression as consequent", lambda: w.cw.call("then", s_b, s_i)),
